@@ -22,8 +22,8 @@ from vlib.runner import Sub, Violation, require
 from liesel.goose.optim import Stopper, optim_flat
 
 PROPERTY = "C20"
-RULE = ("stopper: all loss histories of length L (5 quick / 7 thorough) over {0, -0.125, 0.125, 1, 1.125, 2} x i x patience 1..L x "
-        "(atol, rtol) in {0, 0.125, 0.25}^2, plus Hypothesis float histories; end-to-end: generated regression data sets, optimisers, "
+RULE = ("stopper: all loss histories of length 5 over {0, -0.125, 0.125, 1, 1.125, 1.25, 2} (thorough: length 6 over that alphabet and length 7 without 1.25) x i x patience 1..L x "
+        "(atol, rtol) in {0, 0.125, 0.25}^2, plus Hypothesis float histories (half of them with the oldest loss of the window placed at a generated multiple of a threshold); end-to-end: generated regression data sets, optimisers, "
         "Stopper settings, validation model on/off, restore/prune flags, batch sizes dividing and not dividing n. Non-trivial = window "
         "minimum is not its oldest entry and the window is full (stopper); batch size not dividing n or early stop before max_iter "
         "(end-to-end). Distinct = SHA-1 of the case")
@@ -45,6 +45,7 @@ LEVEL_NOTE = "Trusts the numpy re-implementation of the documented rule and an i
 
 F32 = np.float32
 ALPHA = [0.0, -0.125, 0.125, 1.0, 1.125, 2.0]
+ALPHA7 = ALPHA + [1.25]          # 1.25 vs best 1.0: diff above each tolerance of 0.125 alone but within their sum (the two tests are alternatives, not additive)
 TOLS = [0.0, 0.125, 0.25]
 
 
@@ -116,13 +117,16 @@ def oracle_stopper_case(case):
 
 
 def run_stopper_exhaustive(ctx):
-    L = 5 if ctx.tier == "quick" else 7
-    hist = np.array(list(itertools.product(ALPHA, repeat=L)), dtype=F32)
-    configs = [(p, a, r, mi) for p in range(1, L + 1) for a in TOLS for r in TOLS for mi in (L, L + 3)]
+    plans = [(ALPHA7, 5)] if ctx.tier == "quick" else [(ALPHA7, 6), (ALPHA, 7)]
+    configs = [(al, L, p, a, r, mi) for al, L in plans for p in range(1, L + 1) for a in TOLS for r in TOLS for mi in (L, L + 3)]
     n_eval = 0
-    for ci, (p, atol, rtol, mi) in enumerate(configs):
+    hists = {}
+    for ci, (al, L, p, atol, rtol, mi) in enumerate(configs):
         if ci % ctx.nshards != ctx.shard or mi < p:
             continue
+        if (len(al), L) not in hists:
+            hists[(len(al), L)] = np.array(list(itertools.product(al, repeat=L)), dtype=F32)
+        hist = hists[(len(al), L)]
         I = np.repeat(np.arange(L), len(hist))
         H = np.tile(hist, (L, 1))
         if mi > L:  # history array has length max_iter in real use; pad with zeros like optim_flat does
@@ -161,8 +165,16 @@ def gen_stopper_floats():
         if draw(st.booleans()):  # plateaus make the tolerance rule matter
             k = draw(st.integers(0, L - 1))
             h = h[:k] + [h[k]] * (L - k)
-        return {"p": p, "atol": draw(st.sampled_from([0.0, 1e-3, 0.5, 10.0])), "rtol": draw(st.sampled_from([0.0, 1e-3, 0.1, 2.0])),
-                "max_iter": L + draw(st.integers(0, 3)), "i": draw(st.integers(0, L - 1)), "h": [float(F32(x)) for x in h]}
+        atol, rtol = draw(st.sampled_from([0.0, 1e-3, 0.5, 10.0])), draw(st.sampled_from([0.0, 1e-3, 0.1, 2.0]))
+        i = draw(st.integers(0, L - 1))
+        if i >= p - 1 and p >= 2 and draw(st.booleans()):
+            # put the oldest loss of the window at a generated multiple of one of the thresholds above the window's best loss
+            w = h[i - p + 1: i + 1]
+            best = min(w[1:])
+            thr = draw(st.sampled_from([atol, rtol * abs(best), atol + rtol * abs(best)]))
+            h[i - p + 1] = best + draw(st.sampled_from([0.5, 0.75, 0.99, 1.0, 1.01, 1.5, 2.5])) * thr
+        return {"p": p, "atol": atol, "rtol": rtol,
+                "max_iter": L + draw(st.integers(0, 3)), "i": i, "h": [float(F32(x)) for x in h]}
 
     return g()
 
